@@ -249,7 +249,16 @@ def buildnone_flags(ctx, rule, only=None):
         fi = M.method(ci.name, "_build")
         ps = paths_of(ctx, fi, ci.name)
         uses = any(N.contains(v, OBJ) for p in ps for e in p.events for v in e.a.values() if isinstance(v, tuple)) or any(p.retval is not None and N.contains(p.retval, OBJ) for p in ps)
-        if uses:
+        is_none = N.mk_cmp("is", OBJ, N.NONE)
+        def handles_none(p):
+            # a successful path that was taken *because* obj is None (or is None-or-the-constant): the class builds from nothing
+            for g in p.guards():
+                if g == is_none:
+                    return True
+                if g[0] == "cmp" and g[1] == "in" and g[2] == OBJ and g[3][0] == "tuple" and N.NONE in g[3][1]:
+                    return True
+            return any(x[0] == "ite" and x[1] == is_none for e in p.events for v in e.a.values() if isinstance(v, tuple) for x in N.walk(v))
+        if uses and not (ci.name in ("Const", "Default") and any(p.returns and handles_none(p) for p in ps)):
             continue
         ini = M.resolve(ci.name, "__init__")
         fb = [e["value"] for p in (paths_of(ctx, ini, ci.name) if ini is not None else []) for e in p.events if e.kind == "SELFWRITE" and e["attr"] == "flagbuildnone"]
@@ -368,6 +377,7 @@ def run(ctx):
                     reason = next((ONE_SIDED[(c, x)] for x in attrs + [k] if (c, x) in ONE_SIDED), None)
                     ctx.ob("C01.R1", fa if k in pa else fb, fro, "%s: parameter `%s` is consulted only by %s" % (c, k, side), key="%s %s one-sided %s" % (c, k, side), detail=reason)
     init_store_checks(ctx, "C01.R1")
+    attributes_defined(ctx, "C01.R1", lambda ci: ctx.model.is_subclass(ci.name, "Construct"))
     ctx.floor("C01.R1", 60 + 100)
 
     # ---------------------------------------------------------------- R2
